@@ -660,7 +660,16 @@ protected:
             }
             else
             {
-                start = m_writer.write( chars, start, length);
+                // This is the data of a comment or of a processing
+                // instruction, where there are no character references,
+                // so a character which the encoding cannot represent is
+                // an error.
+                const size_type     theCount =
+                    isUTF16HighSurrogate(ch) == true && start + 1 < length ? 2 : 1;
+
+                m_writer.writeCommentChars(chars + start, theCount);
+
+                start += theCount - 1;
             }
         }
 
